@@ -69,6 +69,7 @@ XalanOutputStream::XalanOutputStream(
             bool                    fThrowTranscodeException) :
     m_transcoderBlockSize(theTranscoderBlockSize),
     m_transcoder(0),
+    m_probeTranscoder(0),
     m_bufferSize(theBufferSize),
     m_buffer(theManager),
     m_encoding(theManager),
@@ -89,6 +90,7 @@ XalanOutputStream::XalanOutputStream(
 XalanOutputStream::~XalanOutputStream()
 {
     XalanTranscodingServices::destroyTranscoder(m_transcoder);
+    XalanTranscodingServices::destroyTranscoder(m_probeTranscoder);
 }
 
 
@@ -282,6 +284,10 @@ XalanOutputStream::setOutputEncoding(const XalanDOMString&  theEncoding)
 
     m_transcoder = 0;
 
+    XalanTranscodingServices::destroyTranscoder(m_probeTranscoder);
+
+    m_probeTranscoder = 0;
+
     XalanTranscodingServices::eCode     theCode = XalanTranscodingServices::OK;
 
     if (XalanTranscodingServices::encodingIsUTF16(theEncoding) == true)
@@ -311,6 +317,22 @@ XalanOutputStream::setOutputEncoding(const XalanDOMString&  theEncoding)
         }
 
         assert(m_transcoder != 0);
+
+        // canTranscodeTo() gets a converter of its own: see m_probeTranscoder.
+        m_probeTranscoder = XalanTranscodingServices::makeNewTranscoder(
+                    getMemoryManager(),
+                    theEncoding,
+                    theCode,
+                    m_transcoderBlockSize);
+
+        if (theCode != XalanTranscodingServices::OK)
+        {
+            XalanDOMString  theBuffer(getMemoryManager());
+
+            throw TranscoderInternalFailureException(theEncoding, theBuffer, 0);
+        }
+
+        assert(m_probeTranscoder != 0);
     }
 
     m_encoding = theEncoding;
@@ -332,9 +354,9 @@ XalanOutputStream::setOutputEncoding(const XalanDOMString&  theEncoding)
 bool
 XalanOutputStream::canTranscodeTo(XalanUnicodeChar  theChar) const
 {
-    if (m_transcoder != 0)
+    if (m_probeTranscoder != 0)
     {
-        return m_transcoder->canTranscodeTo(theChar);
+        return m_probeTranscoder->canTranscodeTo(theChar);
     }
     else
     {
